@@ -16,22 +16,25 @@ static size_t build_archive(vrng* r, const uint8_t* x, size_t n, unsigned maxFra
     size_t const ir = ZSTD_seekable_initCStream(zcs, level, checksum, maxFrameSize);
     if (ZSTD_isError(ir)) { ZSTD_seekable_freeCStream(zcs); return ir; }
     ZSTD_outBuffer out = { dst, cap, 0 }; size_t pos = 0; size_t inFrame = 0; *nfb = 0; int ho = 0; hist[0] = 0;
+    int const smallOut = vr_chance(r, 1, 2);      /* output room per call: tiny windows (frame ends need several calls) or everything */
+    #define ROOM() do { if (smallOut) { size_t const room_ = vr_chance(r, 1, 2) ? 1 + vr_u(r, 40) : 1 + vr_u(r, 1200); out.size = V_MIN(cap, out.pos + room_); } } while (0)
     size_t const mfs = maxFrameSize ? maxFrameSize : (size_t)1 << 30;
     while (pos < n) {
         size_t chunk = 1 + vr_u64(r, vr_chance(r, 1, 3) ? 300 : 70000); if (chunk > n - pos) chunk = n - pos;
         ZSTD_inBuffer in = { x + pos, chunk, 0 };
         while (in.pos < in.size) {
             size_t before = in.pos;
+            ROOM();
             size_t const rr = ZSTD_seekable_compressStream(zcs, &out, &in);
             if (ZSTD_isError(rr)) { ZSTD_seekable_freeCStream(zcs); return rr; }
             /* track automatic frame ends (exactly every maxFrameSize bytes) */
             size_t adv = in.pos - before; while (adv) { size_t room = mfs - inFrame; size_t t = adv < room ? adv : room; inFrame += t; adv -= t; if (inFrame == mfs) { if (*nfb < fbcap) fb[(*nfb)++] = pos + (in.pos - adv); inFrame = 0; } }
-            if (out.pos == out.size) { ZSTD_seekable_freeCStream(zcs); return (size_t)-ZSTD_error_dstSize_tooSmall; }
+            if (out.pos == cap) { ZSTD_seekable_freeCStream(zcs); return (size_t)-ZSTD_error_dstSize_tooSmall; }
         }
         pos += chunk;
-        if (vr_chance(r, 1, 6)) { int k = 1 + (int)vr_u(r, 2); while (k--) { size_t rr; do { rr = ZSTD_seekable_endFrame(zcs, &out); } while (!ZSTD_isError(rr) && rr); if (ZSTD_isError(rr)) { ZSTD_seekable_freeCStream(zcs); return rr; } if (inFrame || k == 0) { if (*nfb < fbcap) fb[(*nfb)++] = pos; } inFrame = 0; } if (ho < (int)histcap - 16) ho += snprintf(hist + ho, histcap - (size_t)ho, "E@%zu ", pos); }
+        if (vr_chance(r, 1, 6)) { int k = 1 + (int)vr_u(r, 2); while (k--) { size_t rr; do { ROOM(); rr = ZSTD_seekable_endFrame(zcs, &out); } while (!ZSTD_isError(rr) && rr && out.pos < cap); if (ZSTD_isError(rr)) { ZSTD_seekable_freeCStream(zcs); return rr; } if (inFrame || k == 0) { if (*nfb < fbcap) fb[(*nfb)++] = pos; } inFrame = 0; } if (ho < (int)histcap - 16) ho += snprintf(hist + ho, histcap - (size_t)ho, "E@%zu ", pos); }
     }
-    {   size_t rr; int guard = 0; do { rr = ZSTD_seekable_endStream(zcs, &out); } while (!ZSTD_isError(rr) && rr && ++guard < 100000); if (ZSTD_isError(rr)) { ZSTD_seekable_freeCStream(zcs); return rr; } }
+    {   size_t rr; int guard = 0; do { ROOM(); rr = ZSTD_seekable_endStream(zcs, &out); } while (!ZSTD_isError(rr) && rr && ++guard < 10000000 && out.pos < cap); if (ZSTD_isError(rr)) { ZSTD_seekable_freeCStream(zcs); return rr; } }
     ZSTD_seekable_freeCStream(zcs);
     return out.pos;
 }
